@@ -48,7 +48,7 @@ CHECKS["C05"] = ("EMatch.tla (declarative e-matching over the congruence of Slot
 CHECKS["C14"] = ("SlottedCC.tla MinCost for astsize/depth and LeafOps (set of leaf operators, join = union) = least fixpoints of make/merge; three analyses (min size/depth, leaf operators) read at every class after every call of every replayed path and compared; EGraphOp.tla (operational model with update_analysis / pending types / join in move_to) checked by TLC to reach these fixpoints; TraceRewrite.tla: constant folding with its modify hook on recorded rewriting runs",
          "analysis data of every class equals the specification's least fixpoint after every call (min-size, min-depth); constant folding with modify hook: see level_note", "5 C14")
 NOTES_EXTRA = {"C14": CC_NOTE + " Constant-folding analysis (modify hook) is exercised by the rewrite recorder (rw_record) once built; until then only the two slot-independent lattices are covered."}
-CHECKS["C04"] = ("MC_Fire.tla (SlottedCC + Terms.Inst) + TLC: per rule, every set of balanced alias unions as state with Represented(l.sigma) decided by the closure; replay: build pre-state, apply_rewrites once, require r.sigma represented and equal; EMatch.tla + TLC: the complete set of ground matches of a 43-pattern pool in every state of the congruence universes, ematch_all must report every one of them (states without redundant slots); TraceRewrite.tla: in recorded apply_rewrites calls with several rules every instance matched in the state before the call is rewritten by the call; design level: EMatchOp.tla (operational model of ematch.rs) refines EMatch.tla on the reachable states of EGraphOp.tla",
+CHECKS["C04"] = ("MC_Fire.tla (SlottedCC + Terms.Inst) + TLC: per rule, every set of balanced alias unions as state with Represented(l.sigma) decided by the closure; replay: build pre-state, apply_rewrites once, require r.sigma represented and equal; EMatch.tla + TLC: the complete set of ground matches of a 43-pattern pool in every state of the congruence universes, ematch_all must report every one of them (states without redundant slots); TraceRewrite.tla: in recorded apply_rewrites calls with several rules every instance matched in the state before the call is rewritten by the call; design level: EMatchOp.tla (operational model of ematch.rs) refines EMatch.tla on the reachable states of EGraphOp.tla, ApplyOp.tla (pattern_subst / apply_rewrites on the operational model) makes every planted instance of the MC_Fire tables fire",
          "every planted instance whose left side the specification says is represented (also only up to equality) fires; ematch_all finds every ground match the specification derives; all searchers run before any applier - on all explored states within the documented scope", "5 C04")
 RW_NOTE = ("TLC checks the model-level facts (rule validity over GF(p), Runner.tla invariants and liveness) exhaustively within the stated constants; the Rust "
            "code is bound by TLC validating recorded runs of the real rewriting machinery event by event (TraceRewrite.tla). Trusted: TLC, the recorder's "
